@@ -14,6 +14,7 @@ from liquid2.builtin.expressions import is_truthy
 from liquid2.exceptions import LiquidTypeError
 from liquid2.filter import sequence_arg
 from liquid2.undefined import is_undefined
+from liquid2.limits import to_str
 
 if TYPE_CHECKING:
     from liquid2 import Environment
@@ -173,7 +174,7 @@ class CompactFilter:
                 return [itm for itm in left if itm[key] is not None]
             except TypeError as err:
                 raise LiquidTypeError(
-                    f"can't read property '{key}'", token=None
+                    f"can't read property '{to_str(key)}'", token=None
                 ) from err
 
         return [itm for itm in left if itm is not None]
